@@ -183,6 +183,54 @@ def _add_chains(rng, N, grams, words):
     return chains, must_bo, queries
 
 
+def _add_shared_blanks(rng, N, grams, words):
+    """Shared multi-level blanks: groups of n-grams E_i = C_i + S (order >= 4) that share a suffix S (length s >= 2) which is
+    absent from the model together with every longer proper suffix of each E_i (2..3 consecutive missing orders); some
+    heads also share the last context word, so a *higher* blank is shared too.  The last word of S is fresh per group.
+    Returns (list of (s, levels, heads), n-grams needing a non-zero back-off, queries matching each blank exactly)."""
+    groups, must_bo, queries = [], set(), []
+    for gi in range(rng.randrange(2, 4)):
+        s = rng.randrange(2, max(3, N - 1))            # shared suffix length, 2 .. N-2
+        if s + 2 > N:
+            s = N - 2
+        last = "zs%d" % gi
+        S = [rng.choice(words) for _ in range(s - 1)] + [last]
+        grams[1].add((last,))
+        for j in range(1, s):                           # suffixes of S shorter than s stay (the basis)
+            grams[j].add(tuple(S[s - j:]))
+        nheads = rng.randrange(2, 5)
+        shared_word = rng.choice(words)
+        heads = []
+        for hi in range(nheads):
+            clen = rng.randrange(2, N - s + 1)          # context length >= 2 => at least two missing orders
+            C = [rng.choice(words) for _ in range(clen)]
+            if hi % 2 == 1:
+                C[-1] = shared_word                     # these heads also share the blank of order s+1
+            E = C + S
+            pre = E[:-1]
+            for i in range(len(pre)):                   # contexts (all substrings of E minus its last word) are n-grams
+                for j in range(i + 1, len(pre) + 1):
+                    if j - i <= N:
+                        grams[j - i].add(tuple(pre[i:j]))
+            grams[len(E)].add(tuple(E))
+            heads.append(E)
+        for E in heads:                                 # prune S and every longer proper suffix of every head
+            for j in range(s, len(E)):
+                grams[j].discard(tuple(E[len(E) - j:]))
+                must_bo.add(tuple(E[len(E) - j:len(E) - 1]))
+        for E in heads:                                 # a head that is a proper suffix of another head stays real: re-add
+            grams[len(E)].add(tuple(E))
+        for E in heads:
+            for j in range(s, len(E) + 1):
+                suf = E[len(E) - j:]
+                if tuple(suf) in grams[j] and j < len(E):
+                    continue
+                queries.append(("N", [rng.choice(words)] + suf))
+                queries.append((rng.choice("BN"), suf + [rng.choice(words)]))
+        groups.append((s, max(len(E) for E in heads) - s, nheads))
+    return groups, must_bo, queries
+
+
 def gen_fanout_case(rng, force=None):
     """(f') high fan-out: one bigram with 100..300 left extensions while the others have 0..7, more than 64
     bigrams, so that ArrayBhiksha chops bits and the child range of the hub spans several offset buckets."""
@@ -233,6 +281,7 @@ def gen_fanout_case(rng, force=None):
     c.order = N
     c.words = ws + small
     c.chains = []
+    c.shared = []
     c.mult = rng.choice([1.5, 2.0])
     c.abits = force.get("abits") if force.get("abits") is not None else rng.choice([1, 2, 3, 4, 6, 9, 22, 25, 64, 255])
     qs = []
@@ -348,6 +397,8 @@ def gen_case(rng, max_order=6, max_vocab=60, size="small", force=None):
         V = max(3, (1 << k) + rng.choice([-1, 0, 1]) - 3)
     words = _wordlist(rng, V)
     unk = force.get("unk") or rng.choice(["<unk>", "<unk>", "<unk>", None, "<UNK>"])
+    if unk == "absent":
+        unk = None
     has_bos = rng.random() < 0.9
     has_eos = rng.random() < 0.9
     kind = force.get("kind") or rng.choice(["corpus", "corpus", "pruned", "pruned", "random"])
@@ -367,6 +418,25 @@ def gen_case(rng, max_order=6, max_vocab=60, size="small", force=None):
     if has_eos:
         grams[1].add(("</s>",))
     grams = _fix_contexts(N, grams)
+    # (g) rare: no <unk> unigram, but n-grams that contain the literal word <unk> (the loader lets it through)
+    unk_ngrams = 0
+    if unk is None and N >= 2 and force.get("unk_in_ngrams", rng.random() < 0.25):
+        for _ in range(rng.randrange(2, 7)):
+            w1, w2 = rng.choice(words), rng.choice(words)
+            k = rng.random()
+            if k < 0.4:
+                add = [(w1, "<unk>")]
+            elif k < 0.7:
+                add = [("<unk>", w1)]
+            elif N >= 3 and k < 0.85:
+                add = [(w1, "<unk>"), (w1, "<unk>", w2), ("<unk>", w2)]
+            elif N >= 3:
+                add = [("<unk>", w1), ("<unk>", w1, w2), (w1, w2)]
+            else:
+                add = [(w1, "<unk>")]
+            for g in add:
+                grams[len(g)].add(g)
+                unk_ngrams += 1
     # (b') deep blank chains: every basis order 1..N-2 and every chain length
     chains = []
     must_bo = set()
@@ -374,6 +444,12 @@ def gen_case(rng, max_order=6, max_vocab=60, size="small", force=None):
     want_chains = force.get("chains", kind == "chains" or (N >= 4 and rng.random() < 0.2))
     if want_chains and N >= 3:
         chains, must_bo, chain_queries = _add_chains(rng, N, grams, words)
+        bitbound = False
+    shared = []
+    if force.get("shared", N >= 4 and rng.random() < 0.15) and N >= 4:
+        shared, mb2, q2 = _add_shared_blanks(rng, N, grams, words)
+        must_bo |= mb2
+        chain_queries += q2
         bitbound = False
     # (f) trim the top order to 2^k +- 1 entries when possible
     if bitbound and len(grams[N]) > 5:
@@ -453,7 +529,7 @@ def gen_case(rng, max_order=6, max_vocab=60, size="small", force=None):
     # ---- options for the harness (e)
     c.mult = rng.choice([1.0001, 1.001, 1.2, 1.5, 1.5, 2.0, 10.0])
     c.abits = rng.choice([0, 1, 2, 5, 8, 16, 22, 25, 64 - 0 and 25])
-    if chains:          # blanks live in the slack of the probing tables: leave room so that probing loads
+    if chains or shared:          # blanks live in the slack of the probing tables: leave room so that probing loads
         c.mult = rng.choice([2.0, 10.0])
     # ---- queries
     vocab_q = words + (["<s>"] if has_bos else []) + (["</s>"] if has_eos else [])
@@ -479,7 +555,7 @@ def gen_case(rng, max_order=6, max_vocab=60, size="small", force=None):
                         w = rng.choice(nxt)
                         break
             if w is None:
-                if k > 0.93:
+                if k > 0.93 or (unk_ngrams and k > 0.75):
                     w = rng.choice(["oov", "zzz", "<unk>", "<UNK>", "OOV日"])
                 elif k > 0.90 and has_bos:
                     w = "<s>"
@@ -490,7 +566,8 @@ def gen_case(rng, max_order=6, max_vocab=60, size="small", force=None):
         queries.append((start, ws))
     c.queries = chain_queries + queries
     c.chains = chains
-    c.meta = {"chains": len(chains), "order": N, "vocab": len(table[1]), "kind": kind, "unk": unk or "absent", "crlf": crlf,
+    c.shared = shared
+    c.meta = {"unk_ngrams": unk_ngrams, "shared": len(shared), "chains": len(chains), "order": N, "vocab": len(table[1]), "kind": kind, "unk": unk or "absent", "crlf": crlf,
               "bos": has_bos, "eos": has_eos, "bitbound": bitbound, "style_c": style_c,
               "closed": is_suffix_closed(N, {n: set(table[n]) for n in table}),
               "ngrams": sum(len(table[n]) for n in table)}
